@@ -39,6 +39,7 @@ func checkC10(w *World, r *Report) {
 	r.Explanation += " Rules added in later rounds: (R10.6) parent() renders the inherited body now; (R10.7) the hand-over of the writer to the extends node shares no path with any other use of the writer. (R10.8) structural nodes render their bodies in the context they were given; (R10.9) a root node's block registration is not held back by presence alone. (R10.10) the search for the extends tag visits every node."
 	r.Explanation += " Round 9: (R10.11) re-entrant functions do not bracket nested work with constants in shared state; (R10.12) the parser does not filter node lists by what the nodes are."
 	r.Explanation += " Round 10: (R10.13) the print tag writes the whole converted value."
+	r.Explanation += " Round 11: (R10.14) Parse returns a RootNode."
 	r.RuleText = "obligation = one lookup in a block-body map whose result reaches a branch condition (R10.1), one map hand-over (R10.2); non-trivial = all"
 	r.Trusted = []string{"go/types resolution of map element types"}
 
